@@ -28,6 +28,8 @@ package hpack
 // Not judged (statement silent): whether both tables hold the same entries (recorded as an
 // outcome), which representation the encoder picks, Huffman or raw.
 //
+// Part C (integer boundaries): see the comment above c30refInt.
+//
 // Part B (string forms): single-field histories with strings "a"^P + s for all s over bytes
 // (length <= 2; thorough: length 3 over one byte per Huffman code length), P chosen so that
 // every bit alignment of the tail occurs and the Huffman form is actually selected; as value
@@ -568,7 +570,7 @@ func c30strings(r *vk.Run, out map[string]int64) {
 		}
 	}
 	prefixes := []int{0, 3, 32, 33, 34, 35, 36, 37, 38, 39}
-	r.Set("strings_bounds", fmt.Sprintf("strings a^P+s, P in %v; s: all byte strings of length<=2; thorough also length 3 over %d bytes (one per Huffman code length + extremes); as value of name \"a\" and as new name; whole / split at every offset (|s|<=1 and |s|=3; |s|=2: every 7th tail byte pair) / bytewise", prefixes, len(diverse)))
+	r.Set("strings_bounds", fmt.Sprintf("strings a^P+s, P in %v; s: all byte strings of length<=1, length 2 = any octet + (quick: one of the %d diverse octets / thorough: any octet); thorough also length 3 over %d bytes (one per Huffman code length + extremes); as value of name \"a\" and as new name; whole / split at every offset (|s|<=1 and |s|=3; |s|=2: every 7th tail byte pair) / bytewise", prefixes, len(diverse), len(diverse)))
 	idx := 0
 	one := func(P int, s []byte, fullSplits bool) {
 		str := strings.Repeat("a", P) + string(s)
@@ -652,6 +654,10 @@ func c30strings(r *vk.Run, out map[string]int64) {
 			}
 			one(P, []byte{byte(b0)}, true)
 			for b1 := 0; b1 < 256; b1++ {
+				// quick: second octet over the diverse set only (thorough/replay: all 256)
+				if !r.Thorough() && !r.Replaying() && bytes.IndexByte(diverse, byte(b1)) < 0 {
+					continue
+				}
 				one(P, []byte{byte(b0), byte(b1)}, (b0*256+b1)%7 == 0)
 			}
 			if (r.Thorough() || r.Replaying()) && bytes.IndexByte(diverse, byte(b0)) >= 0 {
@@ -716,10 +722,11 @@ func c30varints(r *vk.Run, out map[string]int64, n uint) {
 	vals = append(vals, 1<<32-1, 1<<32)
 	tails := [][]byte{nil, {0x00}, {0xff}, {0x80, 0x01}, {0x7f, 0x7f, 0x7f}}
 	for _, v := range vals {
-		id := fmt.Sprintf("varint|%d|%d", n, v)
-		if !r.Case(id) {
+		mkid := func() string { return fmt.Sprintf("varint|%d|%d", n, v) }
+		if !r.CaseN(mkid) {
 			continue
 		}
+		id := ""
 		panicked, pv := vk.Guard(func() {
 			enc := appendVarInt(nil, byte(n), v)
 			cls := "one-extra-octet"
@@ -742,12 +749,14 @@ func c30varints(r *vk.Run, out map[string]int64, n uint) {
 				}
 				got, rest, err := readVarInt(byte(n), buf)
 				if err != nil || got != v || !bytes.Equal(rest, tail) {
+					id = mkid()
 					r.Violation(fmt.Sprintf("roundtrip:integer:%s:prefix-%d", cls, n), id, fmt.Sprintf("appendVarInt(n=%d, %d) = %x; readVarInt over it followed by %x returns value %d, %d octets left, err %v", n, v, enc, tail, got, len(rest), err))
 					return
 				}
 			}
 			for cut := 1; cut < len(enc); cut++ { // a proper prefix must ask for more
 				if _, _, err := readVarInt(byte(n), enc[:cut]); err != errNeedMore {
+					id = mkid()
 					r.Violation(fmt.Sprintf("roundtrip:integer-truncated:%s:prefix-%d", cls, n), id, fmt.Sprintf("appendVarInt(n=%d, %d) = %x; readVarInt over the first %d octets: err %v, want need-more", n, v, enc, cut, err))
 					return
 				}
@@ -755,7 +764,7 @@ func c30varints(r *vk.Run, out map[string]int64, n uint) {
 			r.Traces(int64(len(tails)))
 		})
 		if panicked {
-			r.Violation("roundtrip:panic:"+vk.PanicSite(pv), id, pv)
+			r.Violation("roundtrip:panic:"+vk.PanicSite(pv), mkid(), pv)
 		}
 	}
 }
